@@ -201,7 +201,28 @@ class PoolRun:
 
         if not real_pool:
             self._instrument(funcs, logfill)
-        cube.check_interrupt = cb_ if not real_pool else None
+        # what kind of callable the caller hands over is the caller's business too: a plain function, or an object that
+        # happens to be falsy (a budget whose len() is what is left of it, a deadline that is "expired" when false)
+        style = getattr(self, "callback_style", "function")
+        if style == "falsy-object":
+            class Budget:
+                def __call__(self_inner):
+                    return cb_()
+
+                def __len__(self_inner):
+                    return 0
+            handed = Budget()
+        elif style == "bool-false-object":
+            class Deadline:
+                def __call__(self_inner):
+                    return cb_()
+
+                def __bool__(self_inner):
+                    return False
+            handed = Deadline()
+        else:
+            handed = cb_
+        cube.check_interrupt = handed if not real_pool else None
         cube.parallel = mode == "pool"
         cube.poolsize = P
         outcome, outs, tagok = "returned", None, True
